@@ -511,3 +511,25 @@ def audit_all(ctx, dn, G, m, tag="", which=("C01", "C02", "C03", "C04", "C05"), 
         audit_stream(ctx, dn, G, m, tag)
     if "C02" in which:
         audit_queries(ctx, dn, G, m, tag, ts[:10] if len(ts) > 12 else ts, full=full)
+
+
+def model_from_timelines(G, unclosed=None):
+    """a model holding exactly the presence that G's own timelines claim right now (used when the question is
+    whether the indices of G agree with its timelines, whatever they should have been)"""
+    from .model import Model
+    h = Model(G.is_directed(), bool(getattr(G, "edge_removal", True)))
+    for n in G.nodes():
+        h.nodes[n] = {}
+    lst = G.out_interactions() if G.is_directed() else G.interactions()
+    for u, v, d in lst:
+        k = h.key(u, v)
+        sset = set()
+        for a, b in d.get("t", []):
+            sset |= set(range(a, b + 1))
+        if sset:
+            h.P[k] = sset
+            h.orient[k] = (u, v)
+            h.first[k] = min(sset)
+    if unclosed:
+        h.unclosed = {k: set(v) for k, v in unclosed.items() if k in h.P}
+    return h
